@@ -15,7 +15,7 @@
  *     5  decryption with fixed keys: p1 & 3 = tls_cbc_decrypt, tls_record_decrypt, tls13_gcm_decrypt, tls13_record_decrypt;
  *        output block exactly as long as the ciphertext / record
  *     6  helpers fed from handshake fields: tls_cipher_suites_select, tls_authorities_issued_certificate, tls_cert_types_accepted
- * FZ_SKIP: certs2048, chexts (more extension output than maxlen), sh13exts, oid33, cv13 (TLS 1.3 CertificateVerify shorter than its fields)
+ * FZ_SKIP: certs2048, chexts (more extension output than maxlen), oid33, aia, iap, cv13 (TLS 1.3 CertificateVerify shorter than its fields)
  */
 #define FZ_TARGET "fz_tlsrec"
 #include "fz_common.h"
@@ -175,12 +175,14 @@ static void all_getters(const uint8_t *rec)
 			if (!ok) FZ_EXCLUDED();
 		}
 		if (ok) {
-			const uint8_t *sig = NULL;
-			size_t siglen = 0;
-			if (tls13_record_get_handshake_certificate_verify(rec, &a, &sig, &siglen) == 1) {
+			int cv_alg;
+			const uint8_t *cv_sig;
+			size_t cv_siglen;
+			if (tls13_record_get_handshake_certificate_verify(rec, &cv_alg, &cv_sig, &cv_siglen) == 1) {
 				FZ_ACCEPT();
-				/* a caller reads the signature it was handed */
-				if (sig && siglen) { uint8_t *c = fz_dup(sig, siglen); free(c); }
+				/* the caller goes on to verify (sig, siglen): they must have been delivered (checked in the MSan build) */
+				FZ_MUST_BE_SET(cv_sig, "tls13/certificate_verify_outputs", "tls13_record_get_handshake_certificate_verify returned 1 without writing *sig");
+				FZ_MUST_BE_SET(cv_siglen, "tls13/certificate_verify_outputs", "tls13_record_get_handshake_certificate_verify returned 1 without writing *siglen");
 			}
 		}
 	}
@@ -280,7 +282,6 @@ static void ext_processors(const uint8_t *d, size_t n, int p1, int p2)
 		if (r == 1 && outlen > maxlen) fz_fail("tls/ch13exts_maxlen", "tls13_process_client_hello_exts produced %zu bytes, maxlen = %zu", outlen, maxlen);
 		break;
 	case 3:
-		if (fz_skip("sh13exts") && !exts_wellformed(d, n, &cnt)) { FZ_EXCLUDED(); break; }
 		r = tls13_server_hello_extensions_get(d, n, &P);
 		break;
 	/* single-extension processors write a bounded reply (<= 8 resp. 73 bytes): give them exactly that */
@@ -409,7 +410,7 @@ int LLVMFuzzerTestOneInput(const uint8_t *data, size_t size)
 	sel = fz_u8(&in) & 7;
 	p1 = fz_u8(&in);
 	p2 = fz_u8(&in);
-	if ((fz_skip("oid33") && fz_long_oid(in.p, in.n)) || (fz_skip("aia") && fz_aia_unknown(in.p, in.n, 0))) {
+	if (fz_skip_x509_shapes(in.p, in.n, 0)) {
 		FZ_EXCLUDED();
 		fz_end();
 		return 0;
